@@ -41,7 +41,8 @@ def context(obs):
     if pe is not None and pe[0] == "return" and pe[3] <= n and (not ints or ints[0][2] >= pe[2]):
         return f"{first['kind']}-after-plan-end"
     last = obs.msgs[n - 1].command if 0 < n <= len(obs.msgs) else "start"
-    return f"{first['kind']}-after-{last}"
+    during = bool(ints and first["kind"] in ("pause", "defer", "suspend") and ints[0][4])
+    return f"{first['kind']}-{'during' if during else 'after'}-{last}"
 
 
 def make_sweep(P, oracle, *, plans, kinds=KINDS, decisions=DECISIONS, two=False, faults=False, re_kwargs=None, extra=None, goals_fn=None, ctx=False):
